@@ -43,6 +43,7 @@ class Prop:
     stages = ('S1', 'S25', 'S6')
     needs = ('cells', 'frags', 'svg')      # implementation outputs the oracle or the tie uses
     coq_targets = None
+    coq_targets_thorough = ()        # further targets built by the thorough tier only (long sweeps; setup builds them too)
     bins = False
     partial = ''
     def items(self, rng, tier): return []
@@ -50,7 +51,8 @@ class Prop:
     def known(self, item, failure): return None
     def nontrivial(self, item): return True
     def extra(self, ctx): return {}
-    def targets(self): return self.coq_targets or ['Props/%s.vo' % self.id]
+    def targets(self, tier='quick'):
+        return list(self.coq_targets or ['Props/%s.vo' % self.id]) + (list(self.coq_targets_thorough) if tier == 'thorough' else [])
 
 # ------------------------------------------------------------------ execution
 SINGLE_TIMEOUT = 30     # one conversion of one generated input never legitimately takes this long (debug build)
@@ -225,12 +227,15 @@ def count_obligations(vfiles):
         per[f] = [m.group(2) for m in STMT.finditer(src)]
     return per
 
-def assumptions_audit(prop_id, status):
-    """Print Assumptions under every Theorem of Props/Cxx.v, in a fresh coqc run"""
-    pf = os.path.join(COQ, 'Props', prop_id + '.v')
-    src = strip_coq_comments(open(pf).read())
-    names = [m.group(2) for m in STMT.finditer(src) if m.group(1) == 'Theorem']
-    body = 'Require Import SB.Props.%s.\n' % prop_id + ''.join('Print Assumptions %s.\n' % n for n in names)
+def assumptions_audit(prop_id, status, files=None):
+    """Print Assumptions under every Theorem of Props/Cxx.v (and of the further Props files among the targets), in a fresh coqc run"""
+    names = []; body = ''
+    for pfn in (files or [prop_id]):
+        pf = os.path.join(COQ, 'Props', pfn + '.v')
+        src = strip_coq_comments(open(pf).read())
+        ns = [m.group(2) for m in STMT.finditer(src) if m.group(1) == 'Theorem']
+        body += 'Require Import SB.Props.%s.\n' % pfn + ''.join('Print Assumptions %s.\n' % n for n in ns)
+        names += ns
     d = os.path.join(VERIF, 'build', 'audit'); os.makedirs(d, exist_ok=True)
     f = os.path.join(d, 'Audit_%s.v' % prop_id); open(f, 'w').write(body)
     rc, out, dt = build.sh(['coqc', '-R', COQ, 'SB', '-noglob', f], cwd=d, timeout=600)
@@ -276,7 +281,7 @@ def main(prop, argv):
     violations = []     # (replay path, suffix)
     broken = []         # what no longer checks
     # 1, 2: regenerate and prove
-    st = build.ensure(prop.targets(), release=getattr(prop, 'release', False) and tier == 'thorough', bins=prop.bins)
+    st = build.ensure(prop.targets(tier), release=getattr(prop, 'release', False) and tier == 'thorough', bins=prop.bins)
     if not st.get('harness', {}).get('ok'):
         # the implementation does not build: nothing can be run
         print('harness build failed:\n' + st.get('harness', {}).get('log', ''))
@@ -297,14 +302,14 @@ def main(prop, argv):
     if not proofs_ok:
         log = st.get('coq_props', {}).get('log', '')
         m = re.search(r'File "([^"]+)", line (\d+)', log)
-        broken.append('proof: make %s failed%s: %s' % (' '.join(prop.targets()), (' at %s:%s' % (m.group(1), m.group(2))) if m else '', log[-500:]))
+        broken.append('proof: make %s failed%s: %s' % (' '.join(prop.targets(tier)), (' at %s:%s' % (m.group(1), m.group(2))) if m else '', log[-500:]))
     audit = static_audit()
     if audit: broken.append('static audit: ' + '; '.join(audit[:5]))
     assum = {'ok': False, 'theorems': []}
     if proofs_ok:
-        assum = assumptions_audit(prop.id, st)
+        assum = assumptions_audit(prop.id, st, [t[6:-3] for t in prop.targets(tier) if t.startswith('Props/')])
         if not assum['ok']: broken.append('Print Assumptions: %s' % json.dumps({k: assum[k] for k in ('axioms', 'closed', 'rc')}))
-    vfiles = deps_of(prop.targets()[0]) if os.path.exists(os.path.join(COQ, '.Makefile.d')) else []
+    vfiles = sorted({f for t in prop.targets(tier) for f in deps_of(t)}) if os.path.exists(os.path.join(COQ, '.Makefile.d')) else []
     per = count_obligations(vfiles)
     obligations = sum(len(v) for f, v in per.items() if f.startswith(('Theory/', 'Props/')))
     failed_files = set()
@@ -404,7 +409,7 @@ def main(prop, argv):
         'property_id': prop.id, 'tier': tier, 'seed': seed, 'level': 'proof',
         'coverage': {
             'obligations': max(obligations, 1), 'discharged': discharged if proofs_ok else min(discharged, max(obligations - 1, 0)),
-            'checker_cmd': 'cd /verif/coq && make -j16 %s  (coqc 8.16.1, full .vo build) ; coqc build/audit/Audit_%s.v (Print Assumptions)' % (' '.join(prop.targets()), prop.id),
+            'checker_cmd': 'cd /verif/coq && make -j16 %s  (coqc 8.16.1, full .vo build) ; coqc build/audit/Audit_%s.v (Print Assumptions)' % (' '.join(prop.targets(tier)), prop.id),
             'trusted_base': TRUSTED_BASE,
             'theorems': assum.get('theorems', []), 'assumptions_closed': assum.get('closed', 0), 'axioms': assum.get('axioms', []),
             'proof_files': {f: len(v) for f, v in per.items() if f.startswith(('Theory/', 'Props/'))},
